@@ -20,94 +20,23 @@ import (
 	"sort"
 	"strconv"
 	"strings"
-	"time"
 
-	"github.com/go-git/go-billy/v6/osfs"
 
 	git "github.com/go-git/go-git/v6"
 	"github.com/go-git/go-git/v6/plumbing"
-	"github.com/go-git/go-git/v6/plumbing/cache"
-	"github.com/go-git/go-git/v6/plumbing/filemode"
 	"github.com/go-git/go-git/v6/plumbing/format/idxfile"
 	ghash "github.com/go-git/go-git/v6/plumbing/hash"
-	"github.com/go-git/go-git/v6/plumbing/format/index"
-	"github.com/go-git/go-git/v6/plumbing/format/packfile"
 	"github.com/go-git/go-git/v6/storage/filesystem"
-	"github.com/go-git/go-git/v6/storage/memory"
 
+	"verif/harness/b11repo"
 	"verif/harness/lib"
 )
 
-var (
-	oldTime   = time.Date(2001, 1, 1, 0, 0, 0, 0, time.UTC)
-	threshold = time.Date(2010, 1, 1, 0, 0, 0, 0, time.UTC)
-)
+type objDesc = b11repo.Obj
 
-type objDesc struct {
-	kind string
-	at   []string
-	old  bool
-	hash plumbing.Hash
-	raw  []byte
-	typ  plumbing.ObjectType
-}
+var must = b11repo.Must
 
-func must(err error) {
-	if err != nil {
-		panic("harness: " + err.Error())
-	}
-}
-
-func mkObjects(c lib.Case) []*objDesc {
-	var objs []*objDesc
-	for _, x := range c.L("objects") {
-		o := lib.AsCase(x)
-		d := &objDesc{kind: o.S("k"), at: o.SL("at"), old: o.Bool("old")}
-		switch d.kind {
-		case "blob":
-			d.typ, d.raw = plumbing.BlobObject, o.B("data")
-		case "tree":
-			d.typ = plumbing.TreeObject
-			for _, ex := range o.L("entries") {
-				e := lib.AsCase(ex)
-				d.raw = append(d.raw, []byte(e.S("mode")+" "+string(e.B("name"))+"\x00")...)
-				d.raw = append(d.raw, objs[e.I("ref")].hash.Bytes()...)
-			}
-		case "commit":
-			d.typ = plumbing.CommitObject
-			s := "tree " + objs[o.I("tree")].hash.String() + "\n"
-			for _, p := range o.L("parents") {
-				n, _ := strconv.Atoi(fmt.Sprint(p))
-				s += "parent " + objs[n].hash.String() + "\n"
-			}
-			s += "author A <a@example.org> 1000000000 +0000\ncommitter A <a@example.org> 1000000000 +0000\n\n" + o.S("msg") + "\n"
-			d.raw = []byte(s)
-		case "tag":
-			d.typ = plumbing.TagObject
-			t := objs[o.I("target")]
-			d.raw = []byte("object " + t.hash.String() + "\ntype " + t.typ.String() + "\ntag " + o.S("msg") + "\ntagger A <a@example.org> 1000000000 +0000\n\nm\n")
-		default:
-			panic("object kind")
-		}
-		m := &plumbing.MemoryObject{}
-		m.SetType(d.typ)
-		m.Write(d.raw)
-		d.hash = m.Hash()
-		objs = append(objs, d)
-	}
-	return objs
-}
-
-func memObj(d *objDesc) plumbing.EncodedObject {
-	m := &plumbing.MemoryObject{}
-	m.SetType(d.typ)
-	m.Write(d.raw)
-	return m
-}
-
-func openStorage(dir string, exclusive bool) *filesystem.Storage {
-	return filesystem.NewStorageWithOptions(osfs.New(dir), cache.NewObjectLRUDefault(), filesystem.Options{ExclusiveAccess: exclusive})
-}
+func openStorage(dir string, exclusive bool) *filesystem.Storage { return b11repo.Open(dir, exclusive) }
 
 type snapshot struct {
 	loose, packed []int
@@ -119,7 +48,7 @@ func snap(dir string, objs []*objDesc) snapshot {
 	defer st.Close()
 	byHash := map[plumbing.Hash]int{}
 	for i, d := range objs {
-		byHash[d.hash] = i
+		byHash[d.Hash] = i
 	}
 	s := snapshot{digest: map[int]string{}}
 	looseSet := map[int]bool{}
@@ -149,7 +78,7 @@ func snap(dir string, objs []*objDesc) snapshot {
 		}
 		n := 0
 		for i, d := range objs {
-			if ok, err := idx.Contains(d.hash); err == nil && ok {
+			if ok, err := idx.Contains(d.Hash); err == nil && ok {
 				packedSet[i] = true
 				n++
 			}
@@ -167,7 +96,7 @@ func snap(dir string, objs []*objDesc) snapshot {
 	sort.Ints(s.loose)
 	sort.Ints(s.packed)
 	for i, d := range objs {
-		o, err := st.EncodedObject(plumbing.AnyObject, d.hash)
+		o, err := st.EncodedObject(plumbing.AnyObject, d.Hash)
 		if err != nil {
 			continue
 		}
@@ -230,92 +159,7 @@ func run(c lib.Case) (lib.Out, any) {
 	} else {
 		fmt.Fprintln(os.Stderr, "kept", dir)
 	}
-	objs := mkObjects(c)
-	st := openStorage(dir, false)
-	must(st.Init())
-	// everything goes to a memory storer first: source for the pack encoder
-	mem := memory.NewStorage()
-	for _, d := range objs {
-		_, err := mem.SetEncodedObject(memObj(d))
-		must(err)
-	}
-	// packs
-	for _, px := range c.L("packs") {
-		p := lib.AsCase(px)
-		var hs []plumbing.Hash
-		for _, d := range objs {
-			for _, a := range d.at {
-				if a == p.S("name") {
-					hs = append(hs, d.hash)
-				}
-			}
-		}
-		if len(hs) == 0 {
-			continue
-		}
-		var w io.WriteCloser
-		if p.Bool("promisor") {
-			w, err = st.PromisorPackfileWriter("")
-		} else {
-			w, err = st.PackfileWriter()
-		}
-		must(err)
-		ph, err := packfile.NewEncoder(w, mem, false).Encode(hs, uint(p.I("window")))
-		must(err)
-		must(w.Close())
-		if p.Bool("old") {
-			must(os.Chtimes(filepath.Join(dir, "objects", "pack", "pack-"+ph.String()+".pack"), oldTime, oldTime))
-		}
-	}
-	// loose objects
-	for _, d := range objs {
-		for _, a := range d.at {
-			if a == "loose" {
-				_, err := st.SetEncodedObject(memObj(d))
-				must(err)
-				if d.old {
-					h := d.hash.String()
-					must(os.Chtimes(filepath.Join(dir, "objects", h[:2], h[2:]), oldTime, oldTime))
-				}
-			}
-		}
-	}
-	// refs, HEAD, shallow, index
-	for _, rx := range c.L("refs") {
-		r := lib.AsCase(rx)
-		if s := r.S("sym"); s != "" {
-			must(st.SetReference(plumbing.NewSymbolicReference(plumbing.ReferenceName(r.S("name")), plumbing.ReferenceName(s))))
-		} else {
-			must(st.SetReference(plumbing.NewHashReference(plumbing.ReferenceName(r.S("name")), objs[r.I("ref")].hash)))
-		}
-	}
-	if h := c.M("head"); h != nil {
-		if s := h.S("sym"); s != "" {
-			must(st.SetReference(plumbing.NewSymbolicReference(plumbing.HEAD, plumbing.ReferenceName(s))))
-		} else {
-			must(st.SetReference(plumbing.NewHashReference(plumbing.HEAD, objs[h.I("ref")].hash)))
-		}
-	}
-	var sh []plumbing.Hash
-	for _, x := range c.L("shallow") {
-		n, _ := strconv.Atoi(fmt.Sprint(x))
-		sh = append(sh, objs[n].hash)
-	}
-	if len(sh) > 0 {
-		must(st.SetShallow(sh))
-	}
-	if ix := c.L("index"); len(ix) > 0 {
-		idx := &index.Index{Version: 2}
-		for _, ex := range ix {
-			e := lib.AsCase(ex)
-			m, err := filemode.New(e.S("mode"))
-			must(err)
-			idx.Entries = append(idx.Entries, &index.Entry{Name: string(e.B("path")), Hash: objs[e.I("ref")].hash, Mode: m})
-		}
-		sort.Slice(idx.Entries, func(i, j int) bool { return idx.Entries[i].Name < idx.Entries[j].Name })
-		must(st.SetIndex(idx))
-	}
-	must(st.Close())
+	objs, _ := b11repo.Build(dir, c)
 
 	before := snap(dir, objs)
 	var fsckBefore []string
@@ -332,13 +176,13 @@ func run(c lib.Case) (lib.Out, any) {
 	case "prune":
 		opt := git.PruneOptions{Handler: repo.DeleteObject}
 		if c.Bool("threshold") {
-			opt.OnlyObjectsOlderThan = threshold
+			opt.OnlyObjectsOlderThan = b11repo.Threshold
 		}
 		opErr = repo.Prune(opt)
 	case "repack":
 		cfg := &git.RepackConfig{UseRefDeltas: c.Bool("refdeltas")}
 		if c.Bool("threshold") {
-			cfg.OnlyDeletePacksOlderThan = threshold
+			cfg.OnlyDeletePacksOlderThan = b11repo.Threshold
 		}
 		opErr = repo.RepackObjects(cfg)
 	default:
@@ -355,7 +199,7 @@ func run(c lib.Case) (lib.Out, any) {
 	}
 	hs := map[string]string{}
 	for i, d := range objs {
-		hs[strconv.Itoa(i)] = d.hash.String()
+		hs[strconv.Itoa(i)] = d.Hash.String()
 	}
 	extra["hashes"] = hs
 	if opErr != nil {
